@@ -229,6 +229,6 @@ impl<'a> ProgGen<'a> {
             v
         };
         let resume = self.g.chance(0.3);
-        Program { root, log_rules, pre_ops, resume }
+        Program { root, log_rules, pre_ops, resume, optimum: if self.g.chance(0.3) { *self.g.pick(&[2.0, 3.0, -1.0, 7.0]) } else { 0.0 } }
     }
 }
